@@ -1,4 +1,5 @@
 from vlib.core import Check, Family
+from vlib.gentie import gentie_step
 
 CHECK = Check(
     "C10",
@@ -17,6 +18,9 @@ CHECK = Check(
         Family("KORACLE", compare=False, args=["models=GR4J", "variant=stiff", "prop=C10", "n=150"],
                label="KORACLE-gr4j-stiff"),
     ],
+    # tie A: the loop bodies of the arithmetic-only kernels are REGENERATED from the Go source on every run (harness/cmd/owtranslate)
+    # and proved equal to the hand-written model steps (OW/Props/GenTie.lean: gen_eq_*), so the theorems are re-attached to the source
+    pre_steps=[gentie_step],
     level="proof",
     trusted=[
         "hand-written Lean kernel models OW/Kernels/{Coeff,GR4J,Simhyd,Surm,Sacramento}.lean of models/rr/*.go, tied to the "
